@@ -18,7 +18,8 @@ def sh(cmd, cwd=None, timeout=1800):
 
 def main():
     prop, k = sys.argv[1], sys.argv[2]
-    src = "/tmp/mut/out/%s/%s" % (prop, k)
+    rnd = os.environ.get("MUT_ROUND", "")
+    src = "/tmp/mut/out%s/%s/%s" % (rnd, prop, k)
     wt = "/tmp/mut/%s" % prop
     env_py = "/venv/bin/python"
     ran = []
@@ -43,7 +44,7 @@ def main():
     print("CONFIRMED" if ok else "REJECTED")
     if not ok:
         return 1
-    dst = os.path.join(VERIF, "seeded", "%s_%s" % (prop, k))
+    dst = os.path.join(VERIF, "seeded", "%s_%s%s" % (prop, ("r" + rnd + "_") if rnd else "", k))
     os.makedirs(dst, exist_ok=True)
     for f in ("patch.diff", "demo.py", "notes.md"):
         if os.path.exists(os.path.join(src, f)):
